@@ -7,6 +7,7 @@ use std::path::{Path, PathBuf};
 pub mod safelong;
 pub mod uri;
 pub mod token;
+pub mod bodies;
 
 pub struct Src {
     pub path: PathBuf,
@@ -202,7 +203,7 @@ pub fn write_if_changed(path: &Path, text: &str) -> std::io::Result<bool> {
 }
 
 pub fn all() -> Vec<GenFile> {
-    vec![safelong::emit(), uri::emit(), token::emit_token(), token::emit_rid()]
+    vec![safelong::emit(), uri::emit(), token::emit_token(), token::emit_rid(), bodies::emit("conjure-object/src/plain.rs", "PlainSrc")]
 }
 
 pub fn run(out_dir: &Path) -> Result<(), String> {
